@@ -73,10 +73,12 @@ SPECS.append(FuncSpec('expect_record', P, SIG, count=1, csig='void expect_record
 # ---- end of input (the switch that runs when the input is exhausted): inside a quoted field the closing quote is missing -> unexpected_eof (F41: the state fell into the
 # default arm, the record that had been begun was never ended and json_decoder's internal assertion failed)
 EOF_C = [
-    ('requires', '*ec_p == 0 && self->more_ && vx_before_values == 0 && vx_end_quoted == 0 && !vx_default_arm && self->column_ <= SIZE_MAX / 2 && vx_column_index <= SIZE_MAX / 2 && (self->state_ == csv_parse_state_quoted_string || self->state_ == csv_parse_state_escaped_value || self->state_ == csv_parse_state_before_last_quoted_field)'),
+    ('requires', '*ec_p == 0 && self->more_ && vx_before_values == 0 && vx_end_quoted == 0 && !vx_default_arm && self->column_ <= SIZE_MAX / 2 && vx_column_index <= SIZE_MAX / 2 && (self->state_ == csv_parse_state_quoted_string || self->state_ == csv_parse_state_escaped_value || self->state_ == csv_parse_state_before_last_quoted_field || self->state_ == csv_parse_state_between_values)'),
     ('assigns', '*ec_p, self->state_, self->more_, self->column_, vx_before_values, vx_end_quoted, vx_default_arm, vx_column_index, vx_err_handler_calls, vx_buflen'),
     ('ensures', '[C05][C18] the input ends inside a quoted field (no closing quote): unexpected_eof, the parser stops; it is never treated as the end of a record',
      '__CPROVER_old(self->state_) == csv_parse_state_quoted_string ==> (*ec_p == csv_errc_unexpected_eof && !self->more_ && !vx_default_arm && vx_before_values == 0)'),
+    ('ensures', '[C05][C18] the input ends after the closing quote of the last field and some blanks (F50): the field is complete - it is delivered like a field that is followed by a line break; never the default arm',
+     '__CPROVER_old(self->state_) == csv_parse_state_between_values ==> (!vx_default_arm && ((self->ignore_empty_values_ && __CPROVER_old(vx_buflen) == 0) ? (vx_before_values == 0 && self->state_ == csv_parse_state_end_record) : (vx_before_values == 1 && (*ec_p == 0 ==> self->state_ == csv_parse_state_before_last_quoted_field))))'),
     ('ensures', '[C18] the input ends right after the closing quote of the last field: the field is delivered and the record ends', '__CPROVER_old(self->state_) == csv_parse_state_before_last_quoted_field ==> (vx_end_quoted == 1 && self->state_ == csv_parse_state_end_record && *ec_p == 0)'),
 ]
 SPECS.append(FuncSpec('eof_quoted', P, SIG, count=1, csig='void eof_quoted(struct csv_parser* self, int* ec_p)', contract=EOF_C, aliases=dict(AL, column_index_='vx_column_index'),
